@@ -54,3 +54,31 @@ theorem chkShape_sound {L : List GL} {bs : List Block} (h : chkShape L bs = true
   exact ⟨(h b hb).1, fun g hg ch hc => (h b hb).2 g hg ch hc⟩
 
 end DastardV.C03
+
+namespace DastardV.C03
+
+/-- accepted by `chkStream` ⇒ for EVERY group and EVERY channel of it, the concatenation of the emitted blocks
+is the expected (gap-filled) stream of the packets available from the common start -/
+theorem chkStream_sound {fpp : Nat} {L : List GL} {H : List (List (List Pkt))} {bs : List Block}
+    (h : chkStream fpp L H bs = true) (i : Nat) (g : GL) (hg : L[i]? = some g) (c : Nat) (hc : c < g.nchan) :
+    streamOK fpp g.nchan c (((specOf g H i).drop (skipOf (startSN L) g)).take (navail L H)) (catChan bs i c) = true := by
+  simp only [chkStream, List.all_eq_true, List.mem_range] at h
+  have hi : i < L.length := by
+    rcases List.getElem?_eq_some_iff.1 hg with ⟨hlt, _⟩; exact hlt
+  have := h i hi
+  simp only [hg, List.all_eq_true, List.mem_range] at this
+  exact this c hc
+
+/-- the whole C03 oracle, clause by clause -/
+theorem chkC03_sound {fpp : Nat} {L : List GL} {f0 : Int} {H : List (List (List Pkt))} {out : List (Nat × Block)}
+    (h : chkC03 fpp L f0 H out = true) :
+    (∀ b ∈ out.map (·.2), b.data.map (·.length) = L.map (·.nchan) ∧ ∀ g ∈ b.data, ∀ ch ∈ g, ch.length = b.nframes) ∧
+    (∀ (k : Nat) (b : Block), (out.map (·.2))[k]? = some b → b.first = f0 + framesOf ((out.map (·.2)).take k)) ∧
+    (∀ (i : Nat) (g : GL), L[i]? = some g → ∀ c, c < g.nchan →
+      streamOK fpp g.nchan c (((specOf g H i).drop (skipOf (startSN L) g)).take (navail L H))
+        (catChan (out.map (·.2)) i c) = true) := by
+  simp only [chkC03, Bool.and_eq_true] at h
+  obtain ⟨⟨⟨hs, hf⟩, hst⟩, _⟩ := h
+  exact ⟨fun b hb => chkShape_sound hs b hb, (chkFrames_iff _ _).1 hf, fun i g hg c hc => chkStream_sound hst i g hg c hc⟩
+
+end DastardV.C03
